@@ -33,6 +33,7 @@ type c02Model struct {
 	log          []string
 	copyMode     bool
 	copies       int
+	looks        int
 }
 
 func (m *c02Model) id() int { m.nextID++; return m.nextID }
@@ -203,11 +204,69 @@ func (m *c02Model) apply(o c02Op) {
 	}
 }
 
+// firstLook makes the FIRST observation after an operation a different one each time: every accessor must be
+// right when it is the first to look - not only after NColumns() or a render had a chance to settle things.
+func (m *c02Model) firstLook(c *Ctx) (string, string) {
+	t := m.t
+	m.looks++
+	maxRow := 0
+	lastRow, lastLen := -1, 0
+	for i, r := range m.rows {
+		if len(r.cells) > maxRow {
+			maxRow = len(r.cells)
+		}
+		if !r.sep && len(r.cells) > 0 {
+			lastRow, lastLen = i, len(r.cells)
+		}
+	}
+	width := maxRow
+	if m.hasHeader && len(m.header) > width {
+		width = len(m.header)
+	}
+	exact := m.everHeader <= width // otherwise a wider header was replaced and the count may legitimately be larger
+	switch m.looks % 5 {
+	case 1:
+		c.Rec.Count("first_looks_through_Column", 1)
+		if t.Column(width) == nil {
+			return "first-look:Column-existence", fmt.Sprintf("the first look at the table after the operation: Column(%d) is nil although the header or a row has %d cells", width, width)
+		}
+		if exact && t.Column(width+1) != nil {
+			return "first-look:Column-existence", fmt.Sprintf("the first look at the table after the operation: Column(%d) exists although no header or row ever had more than %d cells", width+1, width)
+		}
+	case 2:
+		if lastRow >= 0 {
+			c.Rec.Count("first_looks_through_CellAt", 1)
+			loc := tabular.CellLocation{Row: lastRow + 1, Column: lastLen}
+			p, err := t.CellAt(loc)
+			if err != nil || p == nil {
+				return "first-look:CellAt", fmt.Sprintf("the first look at the table after the operation: CellAt(%+v) fails with %v", loc, err)
+			}
+			if got := p.Location(); got != loc {
+				return "first-look:Location", fmt.Sprintf("the first look at the table after the operation: the cell at %+v reports location %+v", loc, got)
+			}
+		}
+	case 3:
+		c.Rec.Count("first_looks_through_AllRows", 1)
+		if rows := t.AllRows(); len(rows) != len(m.rows) {
+			return "first-look:AllRows-length", fmt.Sprintf("the first look at the table after the operation: AllRows() has %d rows, model %d", len(rows), len(m.rows))
+		}
+	case 4:
+		c.Rec.Count("first_looks_through_Headers", 1)
+		if h := t.Headers(); m.hasHeader && len(h) != len(m.header) {
+			return "first-look:Headers", fmt.Sprintf("the first look at the table after the operation: Headers() has %d cells, model %d", len(h), len(m.header))
+		}
+	}
+	return "", ""
+}
+
 // check compares the whole observable state with the model.  It returns the
 // first discrepancy (key, message) or "".
 func (m *c02Model) check(c *Ctx) (string, string) {
 	t := m.t
 	c.Rec.Count("state_comparisons", 1)
+	if k, msg := m.firstLook(c); k != "" {
+		return k, msg
+	}
 	if got := t.NRows(); got != len(m.rows) {
 		return "NRows", fmt.Sprintf("NRows()=%d, model has %d rows", got, len(m.rows))
 	}
